@@ -96,6 +96,13 @@ C05_newcomerFlag(pre, op, res, post, newSeats) ==
     \A s \in newSeats :
        post.seat[s].btw = (pre.inited /\ pre.rule = "default"
                            /\ pre.dealer # pre.bb /\ StrictlyBetween(pre.n, pre.dealer, pre.bb, s))
+(* "on the same terms as a newcomer": across a rotation into a ring of three or more, every seated player who was not
+   dealt into the previous hand (busted and re-bought, sat in late, newcomer) waits exactly when his seat lies strictly
+   between the new button and the new big blind                                                                      *)
+C05_rejoinTerms(pre, op, res, post) ==
+  (IsRotateOK(op, res) /\ pre.rule = "default" /\ ~IsHU(pre) /\ ActiveCount(post) >= 3 /\ post.dealer # post.bb) =>
+    \A s \in SeatsOf(pre) : (Occ(pre, s) /\ ~Act(pre, s)) =>
+        post.seat[s].btw = StrictlyBetween(post.n, post.dealer, post.bb, s)
 (* continuity: whoever was dealt in and is still seated-in with chips stays
    dealt in across a successful rotation                                   *)
 C05_continuity(pre, op, res, post) ==
